@@ -31,12 +31,17 @@ def parseFloatLit (s : List Char) : Bool :=
 def num2 (s : List Char) (lo hi : Nat) : Bool :=
   s.length == 2 && allDigits s && lo ≤ (String.ofList s).toNat! && (String.ofList s).toNat! ≤ hi
 
+/-- the last day of a month (February: 28; the 29th of a leap year is not modelled: the harness does not send it) -/
+def monthDays (m : List Char) : Nat :=
+  let n := (String.ofList m).toNat!
+  if n = 2 then 28 else if n = 4 ∨ n = 6 ∨ n = 9 ∨ n = 11 then 30 else 31
+
 /-- RFC 3339 recogniser for the shapes the harness sends: `YYYY-MM-DDTHH:MM:SS[.fff](Z|±HH:MM)` with field
-ranges; day-of-month vs month and leap seconds are not modelled (the harness does not send such values) -/
+ranges; the 29th of February and leap seconds are not modelled (the harness does not send such values) -/
 def isDatetimeLit (s : List Char) : Bool :=
   match s with
   | y1 :: y2 :: y3 :: y4 :: '-' :: m1 :: m2 :: '-' :: d1 :: d2 :: t :: h1 :: h2 :: ':' :: n1 :: n2 :: ':' :: s1 :: s2 :: rest =>
-    allDigits [y1, y2, y3, y4] && num2 [m1, m2] 1 12 && num2 [d1, d2] 1 28 && (t == 'T' || t == 't' || t == ' ') &&
+    allDigits [y1, y2, y3, y4] && num2 [m1, m2] 1 12 && num2 [d1, d2] 1 (monthDays [m1, m2]) && (t == 'T' || t == 't' || t == ' ') &&
     num2 [h1, h2] 0 23 && num2 [n1, n2] 0 59 && num2 [s1, s2] 0 59 &&
     (let rest := match rest with
        | '.' :: r => let frac := r.takeWhile Char.isDigit; if frac.isEmpty then ['!'] else r.dropWhile Char.isDigit
